@@ -338,7 +338,11 @@ class IOPort(BaseIOPort):
         self.name = f'{str(input.name)} + {str(output.name)}'
         self._messages = self.input._messages
         self.closed = False
-        self._lock = DummyLock()
+        # The message queue is shared with the input port, so it must be
+        # guarded by the same lock (it is reentrant): with a lock of its
+        # own, or none, two threads receiving from this port both saw a
+        # pending message and the second popleft() raised IndexError.
+        self._lock = getattr(self.input, '_lock', DummyLock())
 
     def _close(self):
         self.input.close()
